@@ -56,6 +56,40 @@ Theorem C07_scale_fl_pow2 : forall prec emax (Hp : Prec_gt_0 prec) (Hpe : Prec_l
   B2R (scale_fl prec emax Hp Hpe s g) = bpow radix2 k * B2R g /\ is_finite (scale_fl prec emax Hp Hpe s g) = true.
 Proof. exact scale_fl_pow2. Qed.
 
+(* ---- the pre-computed reciprocals named in the property's anchors (exponential.rs:176-178, weibull.rs:90-93, pareto.rs:88-91), read
+   off the struct literals of the constructors on every run, are the documented parameter transforms, rounded once *)
+Theorem C07_recip_source : forall prec emax (Hp : Prec_gt_0 prec) (Hpe : Prec_lt_emax prec emax) (x : binary_float prec emax),
+  src_exp_new_lambda_inverse prec emax Hp Hpe x = recip_fl prec emax Hp Hpe x /\
+  src_weibull_new_inv_shape prec emax Hp Hpe x = recip_fl prec emax Hp Hpe x /\
+  src_pareto_new_inv_neg_shape prec emax Hp Hpe x = neg_recip_fl prec emax Hp Hpe x /\
+  recip_fl prec emax Hp Hpe x = Bdiv mode_NE (Bone (prec_gt_0_ := Hp) (prec_lt_emax_ := Hpe)) x /\
+  neg_recip_fl prec emax Hp Hpe x = Bdiv mode_NE (Bopp (Bone (prec_gt_0_ := Hp) (prec_lt_emax_ := Hpe))) x.
+Proof. intros. repeat split; reflexivity. Qed.
+
+Theorem C07_recip_fl_value : forall prec emax (Hp : Prec_gt_0 prec) (Hpe : Prec_lt_emax prec emax) (x : binary_float prec emax),
+  is_finite x = true -> B2R x <> 0 -> Rabs (rnd prec emax (1 / B2R x)) < bpow radix2 emax ->
+  B2R (recip_fl prec emax Hp Hpe x) = rnd prec emax (1 / B2R x) /\ is_finite (recip_fl prec emax Hp Hpe x) = true.
+Proof. exact recip_fl_value. Qed.
+
+Theorem C07_neg_recip_fl_value : forall prec emax (Hp : Prec_gt_0 prec) (Hpe : Prec_lt_emax prec emax) (x : binary_float prec emax),
+  is_finite x = true -> B2R x <> 0 -> Rabs (rnd prec emax (- 1 / B2R x)) < bpow radix2 emax ->
+  B2R (neg_recip_fl prec emax Hp Hpe x) = rnd prec emax (- 1 / B2R x) /\ is_finite (neg_recip_fl prec emax Hp Hpe x) = true.
+Proof. exact neg_recip_fl_value. Qed.
+
+(* Exp(lambda): constructor and sample composed.  The sample is Exp1 / lambda up to two roundings. *)
+Theorem C07_exp_sample_fl_def : forall prec emax (Hp : Prec_gt_0 prec) (Hpe : Prec_lt_emax prec emax) (g lambda : binary_float prec emax),
+  exp_sample_fl prec emax Hp Hpe g lambda = src_exp_sample prec emax Hp Hpe g (src_exp_new_lambda_inverse prec emax Hp Hpe lambda).
+Proof. reflexivity. Qed.
+
+Theorem C07_exp_sample_fl_error : forall prec emax (Hp : Prec_gt_0 prec) (Hpe : Prec_lt_emax prec emax) (g lambda : binary_float prec emax),
+  is_finite g = true -> is_finite lambda = true -> B2R lambda <> 0 ->
+  Rabs (rnd prec emax (1 / B2R lambda)) < bpow radix2 emax ->
+  Rabs (rnd prec emax (B2R g * rnd prec emax (1 / B2R lambda))) < bpow radix2 emax ->
+  is_finite (exp_sample_fl prec emax Hp Hpe g lambda) = true /\
+  Rabs (B2R (exp_sample_fl prec emax Hp Hpe g lambda) - B2R g / B2R lambda)
+    <= (2 * u prec + u prec * u prec) * Rabs (B2R g / B2R lambda) + ((1 + u prec) * Rabs (B2R g) + 1) * eta prec emax.
+Proof. exact exp_sample_fl_error. Qed.
+
 Print Assumptions C07_scale_fl_def.
 Print Assumptions C07_scale_source.
 Print Assumptions C07_scale_fl_value.
@@ -64,3 +98,8 @@ Print Assumptions C07_scale_fl_comm_value.
 Print Assumptions C07_scale_fl_nonneg.
 Print Assumptions C07_scale_fl_monotone.
 Print Assumptions C07_scale_fl_pow2.
+Print Assumptions C07_recip_source.
+Print Assumptions C07_recip_fl_value.
+Print Assumptions C07_neg_recip_fl_value.
+Print Assumptions C07_exp_sample_fl_def.
+Print Assumptions C07_exp_sample_fl_error.
